@@ -4,7 +4,7 @@
    photoelectrons.py (apply_qe), so the theorems over src_* are re-proved against the current source. *)
 From Coq Require Import QArith Qround Qminmax ZArith List Bool Lia Btauto Reals Psatz.
 From PyxelV Require Import Model.Conservation Proofs.ConservationBasic Proofs.ConservationPersist
-  Proofs.ConservationCdm Proofs.ConservationReal.
+  Proofs.ConservationCdm Proofs.ConservationReal Proofs.ConservationExt.
 From PyxelGen Require Import Gen_C15.
 Import ListNotations.
 Open Scope Q_scope.
@@ -20,6 +20,24 @@ Theorem C15_collection_frame_total : forall px ch, length px = length ch ->
   qsum (qadd_list px ch) == qsum px + qsum ch /\ length (qadd_list px ch) = length px.
 Proof. exact collect_frame_exact. Qed.
 Print Assumptions C15_collection_frame_total.
+
+(* the generated charge may be held as arrays (add_charge_array), as particles (add_charge: cosmic rays, charge
+   deposition) or both, in any order: `Charge.array` re-bins the particle frame, and collection adds exactly the
+   generated charge - per pixel what the container's array holds, in total every array entry and every particle *)
+Theorem C15_collection_any_representation : forall rows cols sv sh pixel ops,
+  length pixel = (rows * cols)%nat -> forallb (op_ok rows cols sv sh) ops = true ->
+  collect_ops cols sv sh pixel ops
+    = qadd_list pixel (charge_array cols sv sh ops (map (fun _ => 0) pixel))
+  /\ qsum (collect_ops cols sv sh pixel ops) == qsum pixel + ops_total ops
+  /\ length (collect_ops cols sv sh pixel ops) = length pixel.
+Proof. intros. split; [reflexivity | apply (collect_ops_exact rows); assumption]. Qed.
+Print Assumptions C15_collection_any_representation.
+
+(* a particle is binned into the pixel that contains its position *)
+Theorem C15_particle_binning : forall pos size, 0 < size ->
+  inject_Z (bin_idx pos size) * size <= pos /\ pos < (inject_Z (bin_idx pos size) + 1) * size.
+Proof. exact bin_idx_spec. Qed.
+Print Assumptions C15_particle_binning.
 
 (* ------------------------------------------------------------------------------------------ QE *)
 (* sampling off: exactly efficiency times photons, between zero and the photon count *)
@@ -41,6 +59,28 @@ Theorem C15_qe_sampling_bounds : forall binom : Z -> Q -> Z,
 Proof. exact qe_on_bounds. Qed.
 Print Assumptions C15_qe_sampling_bounds.
 
+(* a draw with success probability 1 (0) returns all (none) of its trials: exactly floor(photons) (zero) *)
+Theorem C15_qe_sampling_degenerate : forall binom : Z -> Q -> Z,
+  (forall n, (0 <= n)%Z -> binom n 1 = n) -> (forall n, (0 <= n)%Z -> binom n 0 = 0%Z) ->
+  forall p, 0 <= p -> qe_on binom 1 p = inject_Z (Qfloor p) /\ qe_on binom 0 p = 0.
+Proof. exact qe_on_degenerate. Qed.
+Print Assumptions C15_qe_sampling_degenerate.
+
+(* simple_conversion, as read from the source: the model argument, when given - 0.0 included -, is the efficiency;
+   otherwise the characteristics'; the accepted range is [0, 1] *)
+Theorem C15_qe_sources : forall arg char,
+  src_qe_select arg char = select_arg arg char
+  /\ (forall a, src_qe_select (Some a) char = Some a)
+  /\ src_qe_select None char = char
+  /\ (forall q, src_qe_range q = true <-> 0 <= q <= 1)
+  /\ (forall q, (if src_qe_range q then Some q else None) = qe_select (Some q) None).
+Proof.
+  intros. split; [destruct arg; reflexivity|]. split; [reflexivity|]. split; [reflexivity|]. split.
+  - intros q. unfold src_qe_range. rewrite andb_true_iff, !Qle_bool_iff. tauto.
+  - intros q. reflexivity.
+Qed.
+Print Assumptions C15_qe_sources.
+
 (* ------------------------------------------------------------------------------------------ full well *)
 Theorem C15_fullwell : forall c x,
   src_full_well c x == Qmin x c
@@ -56,6 +96,19 @@ Theorem C15_fullwell_guard : forall c xs,
   (c < 0 -> simple_full_well c xs = None) /\ (0 <= c -> simple_full_well c xs = Some (map (full_well c) xs)).
 Proof. exact simple_full_well_guard. Qed.
 Print Assumptions C15_fullwell_guard.
+
+(* simple_full_well, as read from the source: the argument, when given, IS the capacity (it overrides the
+   characteristics, in every order relation of the two); otherwise the characteristics'; below zero raises *)
+Theorem C15_fullwell_sources : forall arg char xs,
+  src_fw_select arg char = select_arg arg char
+  /\ (forall c, src_fw_raises c = Qltb c 0)
+  /\ (forall a, arg = Some a -> simple_full_well_sel arg char xs = simple_full_well a xs)
+  /\ (arg = None -> forall c, char = Some c -> simple_full_well_sel arg char xs = simple_full_well c xs)
+  /\ (arg = None -> char = None -> simple_full_well_sel arg char xs = None).
+Proof.
+  intros. split; [destruct arg; reflexivity|]. split; [reflexivity|]. apply full_well_sel_spec.
+Qed.
+Print Assumptions C15_fullwell_sources.
 
 (* ------------------------------------------------------------------------------------------ IPC *)
 (* the nine weights of the kernel literal found in the source sum to one, for ALL couplings *)
@@ -216,6 +269,16 @@ Proof.
 Qed.
 Print Assumptions C15_cdm_partial.
 
+(* the traps hand charge to LATER packets only: no prefix of a line (in transfer order) ends with more charge
+   than that prefix received - the line total is the last prefix *)
+Theorem C15_cdm_prefix_partial : forall P : cdm_par,
+  (forall i k, 0 <= gam P i k) -> (forall a, thr < a -> 0 <= pw P a) ->
+  (forall k a, 0 <= pcap P k a <= 1) -> (forall k, 0 <= rel P k <= 1) ->
+  forall nsp lines, Forall nonneg lines ->
+  Forall2 (fun li lo => forall m, qsum (firstn m lo) <= qsum (firstn m li)) lines (cdm_run P nsp lines).
+Proof. intros P H1 H2 H3 H4 nsp lines Hl. apply cdm_run_prefix; assumption. Qed.
+Print Assumptions C15_cdm_prefix_partial.
+
 (* the real functions approximated by the code meet those ranges (this one uses the real-number axioms) *)
 Theorem C15_cdm_real_factors :
   (forall a b, (0 < a)%R -> Rpower a b = (a * Rpower a (b - 1))%R)
@@ -235,6 +298,18 @@ Print Assumptions C15_cdm_real_factors.
 Example ex_binom_hyp_satisfiable :
   forall n q, (0 <= n)%Z -> 0 <= q <= 1 -> (0 <= (fun n (_ : Q) => n) n q <= n)%Z.
 Proof. intros; lia. Qed.
+
+Example ex_collect_ops :
+  let ops := [OpArray [1; 2; 3; 4]; OpParticles [{| p_ver := 15; p_hor := 5; p_num := 120 |};
+                                                 {| p_ver := 0; p_hor := 10; p_num := 7 |}]; OpArray [0; 0; 1 # 2; 0]] in
+  forallb (op_ok 2 2 10 10) ops = true
+  /\ map Qred (collect_ops 2 10 10 [10; 20; 30; 40] ops) = [11; 29; 307 # 2; 44].
+Proof. vm_compute. split; reflexivity. Qed.
+
+Example ex_degenerate_draw_satisfiable :
+  let b := fun (n : Z) (q : Q) => if Qeq_bool q 0 then 0%Z else n in
+  (forall n, (0 <= n)%Z -> b n 1 = n) /\ (forall n, (0 <= n)%Z -> b n 0 = 0%Z).
+Proof. split; intros; reflexivity. Qed.
 
 Example ex_ipc_in_range : ipc_guard (1 # 8) (1 # 16) (1 # 32) = true
   /\ uniform 7 [[7; 7]; [7; 7]] /\ concat [[7; 7]; [7; 7]] <> [].
